@@ -1392,6 +1392,7 @@ func (e *nestEnv) compareArray(path string, a *atree.Array, c *node) bool {
 	}
 	if a.Type() != atree.TypeInfo(hx.TI(c.ty)) {
 		e.violation("C07", fmt.Sprintf("%s (container %d): type info %v read back, %d was given at creation", path, c.h, a.Type(), c.ty))
+		e.violation("C01", fmt.Sprintf("%s (array %d): Type() is %v, the history says %d", path, c.h, a.Type(), c.ty))
 		return false
 	}
 	if a.Count() != uint64(len(c.elems)) {
@@ -1418,6 +1419,7 @@ func (e *nestEnv) compareMap(path string, m *atree.OrderedMap, c *node) bool {
 	}
 	if m.Type() != atree.TypeInfo(hx.TI(c.ty)) {
 		e.violation("C07", fmt.Sprintf("%s (container %d): type info %v read back, %d was given at creation", path, c.h, m.Type(), c.ty))
+		e.violation("C02", fmt.Sprintf("%s (map %d): Type() is %v, the history says %d", path, c.h, m.Type(), c.ty))
 		return false
 	}
 	if m.Count() != uint64(len(c.kv)) {
